@@ -38,10 +38,15 @@ struct KindSpec<'a> {
     fwd: &'a HashMap<u32, u32>,
     rev: &'a HashMap<u32, u32>,
     n_out: u32,
+    /// input indices whose image was picked among content-identical candidates
+    ambiguous: &'a std::collections::HashSet<(&'static str, u32)>,
 }
 
 fn check_kind(k: &KindSpec, origin: &str, mode: &str) -> Result<(), Failure> {
     for (i, name) in k.input {
+        if k.ambiguous.contains(&(k.kind, *i)) {
+            continue;
+        }
         if let Some(j) = k.fwd.get(i) {
             match k.output.get(j) {
                 Some(n) if n == name => {}
@@ -74,6 +79,17 @@ fn check_kind(k: &KindSpec, origin: &str, mode: &str) -> Result<(), Failure> {
             ));
         }
         match k.rev.get(j) {
+            Some(i) if k.ambiguous.contains(&(k.kind, *i)) => {
+                // any of the identical candidates may be the true preimage:
+                // the name must be the input name of one of them
+                let ok = k.ambiguous.iter().any(|(kind, x)| *kind == k.kind && k.input.get(x) == Some(name));
+                if !ok {
+                    return Err(Failure::new(
+                        format!("{}-name-migrated", k.kind),
+                        format!("[{}] output {} {} is named {:?}, which none of its identical candidate preimages carries [{}]", mode, k.kind, j, name, origin),
+                    ));
+                }
+            }
             Some(i) => {
                 if k.input.get(i) != Some(name) {
                     return Err(Failure::new(
@@ -152,13 +168,19 @@ fn check_mode(
     // with synthetic names on, anonymous items legitimately gain names: only
     // the "input name must survive" direction is checked there
     let empty: BTreeMap<u32, String> = BTreeMap::new();
+    // functions have their own ambiguity record
+    let mut amb = iso.ambiguous.clone();
+    amb.extend(iso.ambiguous_funcs.iter().map(|x| ("function", *x)));
+    if !amb.is_empty() {
+        out.label("gc:ambiguous-preimages(content-identical entities)");
+    }
     let specs = [
-        KindSpec { kind: "function", input: &na.funcs, output: &nb.funcs, fwd: &iso.funcs.fwd, rev: &iso.funcs.rev, n_out: db.n_funcs() },
-        KindSpec { kind: "table", input: &na.tables, output: &nb.tables, fwd: &iso.tables.fwd, rev: &iso.tables.rev, n_out: db.n_tables() },
-        KindSpec { kind: "memory", input: &na.mems, output: &nb.mems, fwd: &iso.mems.fwd, rev: &iso.mems.rev, n_out: db.n_mems() },
-        KindSpec { kind: "global", input: &na.globals, output: &nb.globals, fwd: &iso.globals.fwd, rev: &iso.globals.rev, n_out: db.n_globals() },
-        KindSpec { kind: "element", input: &na.elems, output: &nb.elems, fwd: &iso.elems.fwd, rev: &iso.elems.rev, n_out: db.elems.len() as u32 },
-        KindSpec { kind: "data", input: &na.datas, output: &nb.datas, fwd: &iso.datas.fwd, rev: &iso.datas.rev, n_out: db.datas.len() as u32 },
+        KindSpec { kind: "function", input: &na.funcs, output: &nb.funcs, fwd: &iso.funcs.fwd, rev: &iso.funcs.rev, n_out: db.n_funcs(), ambiguous: &amb },
+        KindSpec { kind: "table", input: &na.tables, output: &nb.tables, fwd: &iso.tables.fwd, rev: &iso.tables.rev, n_out: db.n_tables(), ambiguous: &amb },
+        KindSpec { kind: "memory", input: &na.mems, output: &nb.mems, fwd: &iso.mems.fwd, rev: &iso.mems.rev, n_out: db.n_mems(), ambiguous: &amb },
+        KindSpec { kind: "global", input: &na.globals, output: &nb.globals, fwd: &iso.globals.fwd, rev: &iso.globals.rev, n_out: db.n_globals(), ambiguous: &amb },
+        KindSpec { kind: "element", input: &na.elems, output: &nb.elems, fwd: &iso.elems.fwd, rev: &iso.elems.rev, n_out: db.elems.len() as u32, ambiguous: &amb },
+        KindSpec { kind: "data", input: &na.datas, output: &nb.datas, fwd: &iso.datas.fwd, rev: &iso.datas.rev, n_out: db.datas.len() as u32, ambiguous: &amb },
     ];
     for s in specs.iter() {
         if synthetic {
